@@ -68,8 +68,9 @@ theorem list_deep_distance (cfg : DCfg) (hp : Diff.Plain cfg) (hz : cfg.zip = tr
       intro e he
       rcases listT_cats xs ys 0 e he with h' | h' | h' | h' <;> rw [h'] <;> decide
     simp [buildDelta, hf]
+  have hdu := list_diffUnmerged_of_tree cfg hp al hashOf xs ys (list_diffV_zip cfg hp hz al hashOf xs ys hbx)
   unfold deepDistance
-  rw [hdd]
+  rw [hdd, hdu]
   unfold payloadLen
   rw [hV, hT, hR, hA, e1, e2, e3, e4, e5]
   simp only [sumBy, Nat.add_zero, List.length_map, roughLen, roughLenL_basic _ xs hbx, roughLenL_basic _ ys hby]
